@@ -12,6 +12,7 @@ import (
 	"time"
 
 	"github.com/bluenviron/gortsplib/v5/internal/bytecounter"
+	"github.com/bluenviron/gortsplib/v5/internal/verifyield"
 	"github.com/bluenviron/gortsplib/v5/pkg/auth"
 	"github.com/bluenviron/gortsplib/v5/pkg/base"
 	"github.com/bluenviron/gortsplib/v5/pkg/conn"
@@ -219,18 +220,21 @@ func (sc *ServerConn) run() {
 
 	err := sc.runInner()
 
+	verifyield.Point("conn.run.afterRunInner")
 	sc.ctxCancel()
 
 	if !errors.Is(err, errHTTPUpgraded) {
 		sc.nconn.Close()
 	}
 
+	verifyield.Point("conn.run.beforeReaderWait")
 	reader.wait()
 
 	if sc.session != nil {
 		sc.session.removeConn(sc)
 	}
 
+	verifyield.Point("conn.run.beforeCloseConn")
 	sc.s.closeConn(sc)
 
 	if h, ok := sc.s.Handler.(ServerHandlerOnConnClose); ok {
